@@ -6,4 +6,5 @@ cd "$(dirname "$0")/.."
 KEY=$(printf '%s' "${VERIF_REPO:-/repo}" | md5sum | cut -c1-8)
 .target/$KEY/release/jlmc corpus | node tools/gen_es_truth.js > fixtures/es_truth.json
 .target/$KEY/release/jlmc corpus-thorough | node tools/gen_es_truth.js > fixtures/es_truth_thorough.json
+.target/$KEY/release/jlmc corpus-blocks | UNARY_ONLY=1 node tools/gen_es_truth.js > fixtures/es_blocks.json
 ./check selftest
